@@ -5,3 +5,257 @@
 //!
 //! Thin, add-only wrappers that expose crate-private pure functions to external verification
 //! machinery. Nothing in this module is used by nextest itself.
+
+use crate::{
+    reporter::events::{
+        ExecuteStatus, ExecutionResult, InfoResponse, TestEvent, TestEventKind, UnitState,
+    },
+    test_output::{ChildExecutionOutput, ChildOutput},
+};
+use std::{fmt::Write as _, io::Write as _};
+
+fn hex(s: &str) -> String {
+    if s.is_empty() {
+        return "-".to_owned();
+    }
+    let mut out = String::new();
+    for b in s.as_bytes() {
+        let _ = write!(out, "{b:02x}");
+    }
+    out
+}
+
+#[cfg(unix)]
+fn monotonic_ns() -> u128 {
+    let mut ts = libc::timespec {
+        tv_sec: 0,
+        tv_nsec: 0,
+    };
+    // SAFETY: ts is a valid timespec.
+    unsafe { libc::clock_gettime(libc::CLOCK_MONOTONIC, &mut ts) };
+    (ts.tv_sec as u128) * 1_000_000_000 + ts.tv_nsec as u128
+}
+
+#[cfg(not(unix))]
+fn monotonic_ns() -> u128 {
+    0
+}
+
+fn result_str(r: &ExecutionResult) -> String {
+    match r {
+        ExecutionResult::Pass => "P".into(),
+        ExecutionResult::Leak => "L".into(),
+        ExecutionResult::Fail {
+            abort_status: None,
+            leaked,
+        } => {
+            if *leaked {
+                "Fl".into()
+            } else {
+                "F".into()
+            }
+        }
+        ExecutionResult::Fail {
+            abort_status: Some(a),
+            ..
+        } => format!("FS{a:?}"),
+        ExecutionResult::ExecFail => "X".into(),
+        ExecutionResult::Timeout => "T".into(),
+    }
+}
+
+fn output_str(o: &ChildExecutionOutput) -> String {
+    let one = |b: &[u8]| format!("{}:{:016x}", b.len(), xxhash_rust::xxh64::xxh64(b, 0));
+    match o {
+        ChildExecutionOutput::Output { output, errors, .. } => {
+            let e = if errors.is_some() { "+errors" } else { "" };
+            match output {
+                ChildOutput::Split(s) => format!(
+                    "split:{}:{}{e}",
+                    s.stdout.as_ref().map_or("none".to_owned(), |x| one(&x.buf)),
+                    s.stderr.as_ref().map_or("none".to_owned(), |x| one(&x.buf)),
+                ),
+                ChildOutput::Combined { output } => format!("combined:{}{e}", one(&output.buf)),
+            }
+        }
+        ChildExecutionOutput::StartError(_) => "start-error".to_owned(),
+    }
+}
+
+fn status_str(s: &ExecuteStatus) -> String {
+    format!(
+        "{}/{}:{}:{}:{}ms:delay{}ms:{}",
+        s.retry_data.attempt,
+        s.retry_data.total_attempts,
+        result_str(&s.result),
+        if s.is_slow { "slow" } else { "fast" },
+        s.time_taken.as_millis(),
+        s.delay_before_start.as_millis(),
+        output_str(&s.output),
+    )
+}
+
+/// Event-log tap: when `NEXTEST_VERIF_EVENT_LOG` is set, appends one line per [`TestEvent`] to that
+/// file, stamped with `CLOCK_MONOTONIC` nanoseconds. Names are hex-encoded.
+pub(crate) fn tap_event(event: &TestEvent<'_>) {
+    let Some(path) = std::env::var_os("NEXTEST_VERIF_EVENT_LOG") else {
+        return;
+    };
+    let id = |i: &crate::list::TestInstance<'_>| {
+        format!("{}/{}", hex(i.suite_info.binary_id.as_str()), hex(i.name))
+    };
+    let line = match &event.kind {
+        TestEventKind::RunStarted {
+            run_id,
+            profile_name,
+            test_list,
+            ..
+        } => format!(
+            "RunStarted run_id={run_id} profile={} tests={} run={}",
+            hex(profile_name),
+            test_list.test_count(),
+            test_list.run_count()
+        ),
+        TestEventKind::SetupScriptStarted {
+            index,
+            total,
+            script_id,
+            ..
+        } => format!("SetupScriptStarted {index}/{total} {}", hex(&script_id.to_string())),
+        TestEventKind::SetupScriptSlow {
+            script_id,
+            elapsed,
+            will_terminate,
+            ..
+        } => format!(
+            "SetupScriptSlow {} {}ms will_terminate={will_terminate}",
+            hex(&script_id.to_string()),
+            elapsed.as_millis()
+        ),
+        TestEventKind::SetupScriptFinished {
+            index,
+            total,
+            script_id,
+            run_status,
+            ..
+        } => format!(
+            "SetupScriptFinished {index}/{total} {} {} {} {}ms env={}",
+            hex(&script_id.to_string()),
+            result_str(&run_status.result),
+            if run_status.is_slow { "slow" } else { "fast" },
+            run_status.time_taken.as_millis(),
+            run_status.env_map.is_some()
+        ),
+        TestEventKind::TestStarted {
+            test_instance,
+            running,
+            ..
+        } => format!("TestStarted {} running={running}", id(test_instance)),
+        TestEventKind::TestSlow {
+            test_instance,
+            retry_data,
+            elapsed,
+            will_terminate,
+        } => format!(
+            "TestSlow {} {}/{} {}ms will_terminate={will_terminate}",
+            id(test_instance),
+            retry_data.attempt,
+            retry_data.total_attempts,
+            elapsed.as_millis()
+        ),
+        TestEventKind::TestAttemptFailedWillRetry {
+            test_instance,
+            run_status,
+            delay_before_next_attempt,
+            ..
+        } => format!(
+            "TestAttemptFailedWillRetry {} {} next_delay={}ms",
+            id(test_instance),
+            status_str(run_status),
+            delay_before_next_attempt.as_millis()
+        ),
+        TestEventKind::TestRetryStarted {
+            test_instance,
+            retry_data,
+        } => format!(
+            "TestRetryStarted {} {}/{}",
+            id(test_instance),
+            retry_data.attempt,
+            retry_data.total_attempts
+        ),
+        TestEventKind::TestFinished {
+            test_instance,
+            run_statuses,
+            running,
+            cancel_state,
+            junit_store_success_output,
+            junit_store_failure_output,
+            ..
+        } => {
+            let st: Vec<String> = run_statuses.iter().map(status_str).collect();
+            format!(
+                "TestFinished {} [{}] running={running} cancel={cancel_state:?} store={}{}",
+                id(test_instance),
+                st.join(" "),
+                *junit_store_success_output as u8,
+                *junit_store_failure_output as u8
+            )
+        }
+        TestEventKind::TestSkipped {
+            test_instance,
+            reason,
+        } => format!("TestSkipped {} {reason:?}", id(test_instance)),
+        TestEventKind::InfoStarted { total, .. } => format!("InfoStarted {total}"),
+        TestEventKind::InfoResponse {
+            index,
+            total,
+            response,
+        } => {
+            let (who, state) = match response {
+                InfoResponse::SetupScript(s) => {
+                    (format!("script:{}", hex(&s.script_id.to_string())), &s.state)
+                }
+                InfoResponse::Test(t) => (
+                    format!(
+                        "test:{}/{}",
+                        hex(t.test_instance.binary_id.as_str()),
+                        hex(t.test_instance.test_name)
+                    ),
+                    &t.state,
+                ),
+            };
+            let st = match state {
+                UnitState::Running { .. } => "Running",
+                UnitState::Exiting { .. } => "Exiting",
+                UnitState::Terminating(_) => "Terminating",
+                UnitState::Exited { .. } => "Exited",
+                UnitState::DelayBeforeNextAttempt { .. } => "DelayBeforeNextAttempt",
+            };
+            format!("InfoResponse {index}/{total} {who} {st}")
+        }
+        TestEventKind::InfoFinished { missing } => format!("InfoFinished missing={missing}"),
+        TestEventKind::InputEnter { .. } => "InputEnter".to_owned(),
+        TestEventKind::RunBeginCancel {
+            running,
+            reason,
+            setup_scripts_running,
+        } => format!("RunBeginCancel {reason:?} scripts={setup_scripts_running} running={running}"),
+        TestEventKind::RunBeginKill {
+            running,
+            reason,
+            setup_scripts_running,
+        } => format!("RunBeginKill {reason:?} scripts={setup_scripts_running} running={running}"),
+        TestEventKind::RunPaused { running, .. } => format!("RunPaused running={running}"),
+        TestEventKind::RunContinued { running, .. } => format!("RunContinued running={running}"),
+        TestEventKind::RunFinished {
+            elapsed, run_stats, ..
+        } => format!("RunFinished {}ms {run_stats:?}", elapsed.as_millis()),
+    };
+    if let Ok(mut f) = std::fs::OpenOptions::new()
+        .create(true)
+        .append(true)
+        .open(path)
+    {
+        let _ = writeln!(f, "{} {}", monotonic_ns(), line);
+    }
+}
